@@ -153,7 +153,7 @@ class World:
     """One instantiation of the parties of a scenario (async inside ``sim``, or sync)"""
 
     __slots__ = ("sim", "log", "uses", "fault_party", "fault_index", "fault_exc", "fault_fired",
-                 "sources", "fns", "use_after_fault")
+                 "sources", "fns", "use_after_fault", "repolls")
 
     def __init__(self, sim=None, own_log=False):
         self.sim = sim
@@ -164,6 +164,7 @@ class World:
         self.fault_exc = None
         self.fault_fired = False
         self.use_after_fault = []
+        self.repolls = set()  # uses that re-poll a source which already reported its end
         self.sources = {}
         self.fns = {}
 
@@ -240,6 +241,8 @@ class Source:
         if self.failed:
             world.use_after_fault.append(self.name)
         world.uses.append((self.name, k))
+        if self.exhausted:
+            world.repolls.add((self.name, k))
         world.log.append(("pull", self.name, k))
         return k
 
